@@ -7,6 +7,7 @@ import (
 	"fmt"
 	"os"
 	"path/filepath"
+	"runtime/pprof"
 	"time"
 
 	"github.com/mit-pdos/go-journal/vrt"
@@ -55,6 +56,11 @@ func main() {
 		fn(r, tier)
 		os.Exit(r.Finish())
 	case "job":
+		if pf := os.Getenv("VERIF_CPUPROFILE"); pf != "" {
+			f, _ := os.Create(pf)
+			pprof.StartCPUProfile(f)
+			defer pprof.StopCPUProfile()
+		}
 		out, err := par.RunLocal(os.Args[2], json.RawMessage(os.Args[3]))
 		ob, _ := json.Marshal(out)
 		fmt.Printf("%s\nerr=%v\n", ob, err)
